@@ -690,11 +690,13 @@ def oracle_after_failure(ctx, thorough, forced=None):
     return None, case, note + ('; ' + ref_out[4][:40] if not np.any(coef) else '')
 
 
-def meta_case(ctx, form=None):
+def meta_case(ctx, form=None, unit=None):
     """LmiHinfZpkMeta: the weight handed to the wrapped regressor is the discretised state-space form of the zpk filter
     after the unit conversion; the fitted cascade obeys the gamma_ bound"""
     rng = ctx.rng
     units = rng.choice(['rad/s', 'hz', 'normalized'])
+    if unit is not None:
+        units = ['rad/s', 'hz', 'normalized'][unit % 3]      # swept together with the argument forms
     t_step = rng.choice([0.1, 0.5, 1.0])
     kind = rng.choice(['pre', 'post'])
     disc = rng.choice(['bilinear', 'zoh', 'backward_diff'])
@@ -931,7 +933,7 @@ def run(ctx):
     for i in range(ctx.n(16, 240)):
         ctx.attempt('fit after a failed fit', lambda i=i: _one_after_failure(i))
     for i in range(ctx.n(15, 90)):
-        why, tag, note = meta_case(ctx, form=i)      # every argument form in turn, other options at random
+        why, tag, note = meta_case(ctx, form=i, unit=i + i // 15)      # every argument form x unit in turn, other options at random
         ctx.count('meta:' + tag['units'])
         if note:
             ctx.count('meta:' + note)
